@@ -55,6 +55,10 @@ class Job:
     # then re-established natively by evaluating `exhaustive_call` (must return False) before it is reported
     expect: str = ""
     exhaustive_call: str = ""
+    # an expression that runs every case of this job's enumeration in order inside ONE interpreter session and is false if any fails.
+    # Used when a counterexample does not reproduce in a fresh interpreter: the code under test may keep state between the
+    # solver's paths (exactly what history-style defects do), and then the failure exists only after the earlier cases
+    session_call: str = ""
 
     @property
     def ident(self) -> str:
@@ -217,6 +221,11 @@ class Ctx:
             ok, path = self.replay(j.harness, call, j.env,
                                    tag="kf" if j.role.startswith("finding:") else "cx")
             ob.detail["replay"] = {"path": path, "reproduced": ok}
+            if ok is not True and j.session_call:
+                ok2, path2 = self.replay(j.harness, j.session_call, j.env, tag="cx")
+                ob.detail["session_replay"] = {"path": path2, "reproduced": ok2}
+                if ok2 is True:
+                    ok, path, call = True, path2, f"{j.session_call} (the failing case {call} reproduces only after the earlier cases of the same session: state is kept between calls)"
             if ok is not True:
                 ob.verdict = "error"
                 self.harness_errors.append(
